@@ -166,6 +166,15 @@ class RemoteWorker(Worker, metaclass=RemoteWorkerMeta):
     def is_child(self):
         return self._remote_side and self._is_backend
 
+    @property
+    def pid(self):
+        if self._remote_side and not self._is_backend:
+            # server process: the backend spawned here - never the value pickled by the parent (the parent's own pid), which is
+            # what `_pid` still holds between the registration of the worker and the moment the backend's pid is stored
+            child = self.__dict__.get('_child')
+            return child.pid if child is not None else None
+        return self._pid
+
     # additional property to help distinguish between parent-side and server-side
     # parent == not self.is_child and not self.is_remote_side
     # server == not.self_is_child and self.is_remote_side
